@@ -8,5 +8,7 @@ CONSTANTS
  Waits <- NoWaits
  CancelOf <- NoCancel
  Foreign = FALSE
+ KindOf <- AllCalls
+ LoadOf <- NoLoad
  ClearInputs = TRUE
 INVARIANT NeverTwoCalls
